@@ -23,14 +23,22 @@ class MinMaxValue(GenericValue):
 
         if self._new_value is undefined:
             self._new_value = clone(other)
-            if self._old_value is undefined or ignore_old_value():
-                return True
-            return self._return(self.cmp(self._old_value, other))
-        else:
-            if not self.cmp(self._new_value, other):
-                self._new_value = clone(other)
+        elif not self.cmp(self._new_value, other):
+            self._new_value = clone(other)
 
-        return self._return(self.cmp(self._visible_value(), other))
+        if self._old_value is undefined:
+            return True
+
+        # the comparison with the current value decides if the test is correct,
+        # also if the result which is returned allows the test to continue
+        try:
+            result = self.cmp(self._old_value, other)
+        except TypeError:
+            if not ignore_old_value():
+                raise
+            result = False
+
+        return self._return(result)
 
     def _new_code(self):
         return self._file._value_to_code(self._new_value)
